@@ -1279,15 +1279,8 @@ func rulePurgeAll(c *Ctx) {
 	c.P.Simulate(fn, SimConfig{}, func(pr *PathResult) {
 		n++
 		where := "path [" + condString(pr.Conds) + "]"
-		nameEmpty := false
-		known := false
-		for _, l := range pr.Conds {
-			if l.Atom.Op == "eq" && l.Atom.Args[0].Op == "sym" && l.Atom.Args[0].Name == "p:name" {
-				if s, ok := l.Atom.Args[1].StrVal(); ok && s == "" {
-					known, nameEmpty = true, l.Pol
-				}
-			}
-		}
+		nameSym := &Term{Op: "sym", Name: "p:" + fn.Params[1].Name(), Type: fn.Params[1].Type()}
+		known, nameEmpty := pr.Facts.Decide(eqTerm(nameSym, strTerm("")))
 		if !known {
 			bad = append(bad, "does not distinguish the named from the unnamed purge on "+where)
 			return
